@@ -760,7 +760,7 @@ func runResumption(c *simkit.Choice, r *simkit.Rec) {
 		for step := 0; step < nops && !violated() && r.HarnessErr == ""; step++ {
 			fixSuites()
 			sv := srvs[c.Choose(len(srvs), simkit.LOp)]
-			op := c.Weighted([]int{10, 3, 2, 2, 2, 2, 1, 3, 3, 1, 2, 2, 2, 2, 2}, simkit.LOp)
+			op := c.Weighted([]int{10, 5, 2, 2, 2, 2, 1, 3, 3, 1, 2, 2, 2, 2, 2}, simkit.LOp)
 			if step == 0 {
 				op = 0
 			}
@@ -780,7 +780,7 @@ func runResumption(c *simkit.Choice, r *simkit.Rec) {
 				// 0/1: a new primary key, old ones kept or dropped; 2: the primary stays and
 				// the older keys are retired; 3: the primary stays and a retired key is
 				// accepted again; 4: an older key becomes the primary again
-				mode := c.Weighted([]int{3, 3, 2, 1, 1}, simkit.LFault)
+				mode := c.Weighted([]int{3, 2, 3, 1, 1}, simkit.LFault)
 				if mode == 2 && len(sv.keys) < 2 {
 					mode = 0
 				}
